@@ -298,7 +298,7 @@ fn complete_leaf_value(
                 }
             "ID"
                 // https://spec.graphql.org/October2021/#sec-ID.Result-Coercion
-                if !(json_value.is_string() || json_value.is_i64()) => {
+                if !(json_value.is_string() || json_value.is_i64() || json_value.is_u64()) => {
                     field_error!("resolver returned {json_value}, expected ID")
                 }
             _ => {
